@@ -16,6 +16,24 @@ def withMs (ctx : String) (toks : List String) (k : Ctx → Ms → String) : Str
   | some c, some (n, []) => k c n
   | _, _ => "bad-op"
 
+def handleSat (flags : Bool) : List String → String
+  | ctx :: sigs :: pre :: lt :: sq :: ver :: toks =>
+    -- sigs `key:sig,…|-`; pre `kind:digest:preimage,…|-`; then nLockTime, nSequence, version
+    let pres : Option (List (HashKind × Bytes × Bytes)) :=
+      if pre == "-" then some [] else (pre.splitOn ",").mapM fun e =>
+        match e.splitOn ":" with
+        | [k, d, p] => do pure ((← hashOf? k), (← fromHex? d), (← fromHex? p))
+        | _ => none
+    match readTable sigs, pres, lt.toNat?, sq.toNat?, ver.toNat? with
+    | some sg, some ps, some l, some q, some v => withMs ctx toks fun c n =>
+      match satisfy c ⟨sg, ps, l, q, v⟩ n with
+      | .ok w => (if flags then (if (inputs c ⟨sg, ps, l, q, v⟩ n).sat.nonCanonical then "noncanonical " else "canonical ") else "ok ") ++
+          (if w.isEmpty then "-" else ",".intercalate (w.map toHex))
+      | .error .none => "err none"
+      | .error .malleable => "err malleable"
+    | _, _, _, _, _ => "bad-op"
+  | _ => "bad-op"
+
 def handle : List String → String
   | "gen" :: "Miniscript" :: fn :: args => (Gen.Miniscript.dispatch fn args).getD "bad-op"
   | "type" :: ctx :: toks => withMs ctx toks fun c n => s!"ok {(typeOf c n).render}"
@@ -48,20 +66,8 @@ def handle : List String → String
       | some n => "ok " ++ " ".intercalate (render n)
       | none => "err value"
     | _, _, _ => "bad-op"
-  | "sat" :: ctx :: sigs :: pre :: lt :: sq :: ver :: toks =>
-    -- sigs `key:sig,…|-`; pre `kind:digest:preimage,…|-`; then nLockTime, nSequence, version
-    let pres : Option (List (HashKind × Bytes × Bytes)) :=
-      if pre == "-" then some [] else (pre.splitOn ",").mapM fun e =>
-        match e.splitOn ":" with
-        | [k, d, p] => do pure ((← hashOf? k), (← fromHex? d), (← fromHex? p))
-        | _ => none
-    match readTable sigs, pres, lt.toNat?, sq.toNat?, ver.toNat? with
-    | some sg, some ps, some l, some q, some v => withMs ctx toks fun c n =>
-      match satisfy c ⟨sg, ps, l, q, v⟩ n with
-      | .ok w => "ok " ++ (if w.isEmpty then "-" else ",".intercalate (w.map toHex))
-      | .error .none => "err none"
-      | .error .malleable => "err malleable"
-    | _, _, _, _, _ => "bad-op"
+  | "satflags" :: rest => handleSat true rest
+  | "sat" :: rest => handleSat false rest
   | "exec" :: ctx :: sigs :: wit :: _lt :: _sq :: _ver :: toks =>
     -- sigs: `key:sig,…` (the signatures that verify for the spend); wit: the witness stack, bottom first;
     -- nLockTime, nSequence and version are for the implementation side (no lock time in the covered set)
